@@ -18,9 +18,13 @@ COMPONENTS = {"real": ["ioflo.base.building.Builder (script -> house)", "ioflo.b
 def outline_of(prog_framer, name):
     frames = dict((f["name"], f) for f in prog_framer["frames"])
     kids = {}
-    for f in prog_framer["frames"]:
-        if f.get("over"):
-            kids.setdefault(f["over"], []).append(f["name"])
+    for f in prog_framer["frames"]:       # attach order: see flosim.model (a frame resolves every open link on its way up)
+        cur = f
+        while cur.get("over"):
+            lst = kids.setdefault(cur["over"], [])
+            if cur["name"] not in lst:
+                lst.append(cur["name"])
+            cur = frames[cur["over"]]
     for f in prog_framer["frames"]:
         if f.get("under") and f["under"] in kids.get(f["name"], []):
             kids[f["name"]].remove(f["under"])
